@@ -341,7 +341,8 @@ def rescale(value, unit):
     try:
         return value.rescale(unit)
     except AttributeError:
-        if unit == 1:
+        # (unit == 1 is True in quantities for any unit object of magnitude 1, e.g. metre)
+        if is_unitless(unit) and to_unitless(1.0, unit) == 1:
             return value
         else:
             raise
